@@ -222,3 +222,30 @@ PROPS["C08"] = dict(
 )
 LEVEL_TEXT["C08"] = "Exhaustive enumeration of sizes x hash widths x backends x configuration deviations on the real filter builder; membership checked for every inserted key; false positives counted exhaustively over a fixed probe set against a 6-sigma band."
 TECHNIQUE["C08"] = "bounded-exhaustive enumeration of sizes x widths x configurations; exhaustive counting over a fixed probe set for the rate"
+
+PROPS["C17"] = dict(
+    level="fault_enumeration",
+    engine="E4+E5",
+    parts=[dict(bin="e4_fault", timeout_s={"quick": 900, "thorough": 7200}), dict(bin="e5_proto", shards=4)],
+    rule="fault case = (builder kind, n, fault): for every builder kind (function/filter, online/offline store, FuseLge3Shards, FuseLge3NoShards with 64-bit signatures, FuseLge3FullSigs without hint) and n in {0,1,2,5,16} a fault-free reference build determines the number P of passes over the sources (retries after unsolvable shards make P > 1 for most small key sets); then EVERY (pass p, index i <= n) of the key source, every (p, i < n) of the value source and every rewind of either source is failed in turn (first 4 passes (thorough 8) and the last one), plus one pair of faults; duplicate case = (kind, n in {2,3,5,12}, EVERY pair placement (i,j), triples, all-equal, threads 1/3) with check_dups(true); thorough adds one duplicate inside 10 000 and 120 000 keys; E5 part: deadlock freedom of the par_solve model when shards fail; non-trivial = n >= 2",
+    alphabet="fault-injecting RewindableIoLender for keys and values (marker errors), duplicate key placements",
+    bound={"quick": "n <= 16, first 4 passes + last", "thorough": "n <= 40, first 8 passes + last, large duplicate sets"},
+    oracle="the call returns within the watchdog; if a fault was delivered the result is Err and its chain contains the injected marker, never Ok; if the fault position was never reached the result is Ok and every key maps to its value; duplicates: Err(DuplicateKey) after exactly 4 signature passes (counted by the lender), never Ok",
+    assumptions=VF_ASSUME,
+)
+LEVEL_TEXT["C17"] = "Exhaustive enumeration of single fault positions (every index of every pass, every rewind) and of duplicate-key placements on the real builders with fault-injecting sources; plus deadlock freedom of the par_solve protocol model when shards fail (E5)."
+TECHNIQUE["C17"] = "exhaustive fault-position enumeration with fault-injecting sources on the real builder + explicit-state model checking of the failure paths of the par_solve protocol"
+
+PROPS["C13"] = dict(
+    level="model_checking",
+    engine="E3",
+    parts=[dict(bin="e3_sched", timeout_s={"quick": 1200, "thorough": 14400})],
+    rule="case = one concurrent body (2-3 real threads, 1-2 operations each) explored over all schedules within the preemption bound: (1) AtomicBitVec: ALL unordered pairs of single operations from {set(i,b), swap(i,b), get(i)} x i in {0,1,63,64} (same bit, same word, adjacent words) plus 3-thread swaps on one shared bit and 2-op programs; (2) AtomicBitFieldVec<u8|u16|usize> for widths {1,3,5,7}/{5,11}/{5,13,63}: ALL pairs and (half of / thorough: all) triples of distinct indices among the first 6 elements (same word both inside; adjacent; straddling + inside its low / high word; two straddlers sharing a word), each writer storing one value (thorough: two), plus two writers around an element read concurrently by a third thread; (3) EliasFanoConcurrentBuilder: 6 value sets (l = 0 and l > 0, low parts / high bits sharing a word), EVERY partition of the indices into 2 and 3 threads, ascending and descending order inside a thread",
+    alphabet="scheduling points = every atomic load / store / RMW / compare-exchange iteration performed through the hooked slices of AtomicBitVec::{get,set,swap}_unchecked and AtomicBitFieldVec::{get,set}_atomic_unchecked",
+    bound={"quick": "preemption bound 2 (bodies with <= 2 operations: unbounded); horizon 10000 points", "thorough": "preemption bound 3"},
+    oracle="AtomicBitVec: return values and final bits explained by some sequential order of the operations (brute force over all merges); AtomicBitFieldVec: every written element holds its writer's value, every other element unchanged, a concurrent reader of an unwritten element sees its value; EliasFano: the concurrently built structure answers get/iter/succ/pred/index_of like the sequentially built one; a failing schedule is replayed twice and must reproduce",
+    assumptions=STRICT + ["sequentially consistent interleavings at atomic-operation granularity; complete for what C13 observes (values after join, return values of single-word RMWs) because per-location modification order is total under every memory ordering and distinct words are independent in both observations (DESIGN.md section 2.3)", "every shared access in these methods is an atomic operation routed through the hooked slice (no unsynchronised shared data)"],
+    mc_note="states = complete executions (distinct schedules) run on the real code under the controlled scheduler; transitions = scheduling points; every execution is an execution of the implementation, so traces_validated_against_impl = transitions",
+)
+LEVEL_TEXT["C13"] = "Stateless model checking of the real code: real OS threads run the real atomic methods under a token-passing scheduler that owns every interleaving decision at atomic-operation granularity; all schedules within a preemption bound are explored by re-execution (CHESS-style iterative context bounding), with executions containing compare-exchange retries counted as proof that threads collided."
+TECHNIQUE["C13"] = "controlled-scheduler stateless exploration of real threads (DFS over schedules with preemption bounding) with per-schedule linearizability / final-state oracle"
